@@ -354,6 +354,56 @@ def analyse(f):
     return 'ok', '%s ; returns the number of completed iterations' % form
 
 
+def analyse_chain(lib, f):
+    """the same sampler written as an iterator chain
+        weights.iter().scan(0.0, |cum, w| { *cum += w; Some(*cum) }).take_while(|c| c < u).count()
+    -> ('ok' | 'bad', text) or raises Unrecognised.  Correct iff the scan yields the *updated* running sum and the
+    prefix is taken while that sum is strictly below the variate."""
+    chain = None
+    for bi, t, e in q.calls_named(f, 'count'):
+        tw = strip_refs(e[2][0]) if e[2] else None
+        if tw is not None and q.is_call(tw, 'take_while') and len(tw[2]) == 2:
+            sc = strip_refs(tw[2][0])
+            if q.is_call(sc, 'scan') and len(sc[2]) == 3:
+                chain = (bi, tw, sc)
+    if chain is None:
+        raise Unrecognised('no scan/take_while/count chain')
+    bi, tw, sc = chain
+    if not facts.is_const(strip_refs(sc[2][1]), 0):
+        return 'bad', 'the running sum starts at %s, not 0' % facts.show(sc[2][1])[:20]
+    scf, _ = q.closure_of(lib, sc[2][2])
+    twf, _ = q.closure_of(lib, tw[2][1])
+    if scf is None or twf is None or not scf.is_closure or not twf.is_closure:
+        raise Unrecognised('scan / take_while closures not found')
+    state = ('param', 2, scf.local_name(2))
+    upd = None
+    for bj, st, pl, rhs in q.stores(scf):
+        if strip_refs(pl) == state:
+            r = strip_refs(rhs)
+            if r[0] == 'bin' and r[1] == 'Add' and strip_refs(r[2]) == state and q.find_sub(r[3], lambda x: x[0] == 'param' and x[1] == 3) is not None:
+                upd = bj
+            else:
+                return 'bad', 'the scan state is updated with %s, not state + weight' % facts.show(r)[:40]
+    if upd is None:
+        raise Unrecognised('no `*state += weight` in the scan closure')
+    y = strip_refs(q.ret_expr(scf))
+    if not (y[0] == 'agg' and y[1].endswith('Option::Some') and y[2]):
+        raise Unrecognised('scan closure does not return Some(..)')
+    yv = strip_refs(y[2][0])
+    if yv != state:
+        return 'bad', 'the scan yields %s instead of the updated running sum: take_while compares single weights, not cumulative bounds' % facts.show(yv)[:40]
+    pred, pcf, _ = q.closure_pred(lib, tw[2][1])
+    if pred is None:
+        raise Unrecognised('take_while predicate not a comparison')
+    kind, a, b = pred
+    item_left = a is not None and q.find_sub(a, lambda x: x[0] == 'param' and x[1] == 2) is not None
+    item_right = b is not None and q.find_sub(b, lambda x: x[0] == 'param' and x[1] == 2) is not None
+    strict_below = (kind == 'Lt' and item_left and not item_right) or (kind == 'Gt' and item_right and not item_left)
+    if not strict_below:
+        return 'bad', 'the prefix is taken while %s(%s, %s): not `cumulative bound < variate` (strict)' % (kind, facts.show(a)[:20], facts.show(b)[:20] if b is not None else '')
+    return 'ok', 'scan yields the updated running sum from 0, prefix taken while it is strictly below the variate, result = length of that prefix'
+
+
 def sampler_form(ctx, pid):
     rule = '%s.sampler-interval' % pid
     lib = ctx.lib
@@ -365,7 +415,10 @@ def sampler_form(ctx, pid):
     for f in cands:
         ctx.touch(f)
         try:
-            status, text = analyse(f)
+            try:
+                status, text = analyse(f)
+            except Unrecognised:
+                status, text = analyse_chain(lib, f)
         except Unrecognised as e:
             ctx.sres(False, rule, rule + ':form', 'the categorical sampler returns k exactly on the k-th cumulative interval', f.where(0),
                      'sampler not of the recognised linear-scan shape (%s): not decided' % e)
